@@ -7,7 +7,7 @@ from .. import graphcases as GC
 from .. import scenario
 from . import c03
 
-TEMPLATES = ['se2fix', 'se3fix', 'r3fixlm', 'se2allfix', 'r2iso', 'se3far', 'se2far', 'mixed', 'r2', 'se3c', 'se2shared', 'r3shared', 'se2big', 'se2plain', 'se3reg', 'se3rough', 'se2pair', 'se2desc', 'se3desc']
+TEMPLATES = ['se2fix', 'se3fix', 'r3fixlm', 'se2allfix', 'r2iso', 'se3far', 'se2far', 'mixed', 'r2', 'se3c', 'se2shared', 'r3shared', 'se2big', 'se2plain', 'se3reg', 'se3rough', 'se2pair', 'se2desc', 'se3desc', 'se2inplace', 'se3inplace']
 
 
 def gen(tier, seed):
@@ -82,6 +82,7 @@ def check(run):
                    ('se2fix', [opt(20, True, '1e-4'), opt(1, False)]), ('r3fixlm', [opt(5, False, '1e-4')]), ('se2allfix', [opt(3, True), opt(2, False)]),
                    ('r2iso', [opt(3, False, '1e-4'), opt(3, True)]), ('se3fix', [opt(5, False, '1e-4')]),
                    ('se2shared', [opt(2, False), opt(3, True, '1e-4')]), ('r3shared', [opt(1, False), opt(2, False)]),
+                   ('se2inplace', [opt(2, True), opt(3, False, '1e-4')]), ('se3inplace', [opt(1, False), opt(3, True, '1e-4')]),
                    ('se3rough', [opt(1, True), opt(3, True, '1e-4'), setf(3, True), opt(2, False)]), ('se2pair', [opt(1, True), opt(2, True), opt(2, False)]),
                    ('r2lonely', [opt(3, True, '1e-4'), setf(4, True), opt(2, True)]), ('se3lonely', [opt(2, True), opt(3, True, '1e-4')])]
     events = []
